@@ -60,13 +60,13 @@ package internal
 
 //@ func role:slice-elem
 //@   ensures [C04] no-escaping-panic: !panics
-//@   ensures [C10,C09] element-function-called-once-with-this-iterations-copies: ncalls == 1 && argsOK && shapeOK
+//@   ensures [C10,C09,C12] element-function-called-once-with-this-iterations-copies: ncalls == 1 && argsOK && shapeOK
 //@   ensures [C10,C07,C08] returns-users-error: implies(!upanic, result == uerr)
 //@   ensures [C04,C10] panic-is-panic-error: implies(upanic, isPanicErr(result, pv))
 
 //@ func role:map-elem
 //@   ensures [C04] no-escaping-panic: !panics
-//@   ensures [C10,C09] entry-function-called-once-with-this-iterations-copies: ncalls == 1 && argsOK && shapeOK
+//@   ensures [C10,C09,C12] entry-function-called-once-with-this-iterations-copies: ncalls == 1 && argsOK && shapeOK
 //@   ensures [C10,C07,C08] returns-users-error: implies(!upanic, result == uerr)
 //@   ensures [C04,C10] panic-is-panic-error: implies(upanic, isPanicErr(result, pv))
 
@@ -133,7 +133,7 @@ package internal
 // One iteration of a Slice / Map element loop.
 //@ func role:element-iteration
 //@   ensures [C10] one-job-per-element: nEnqueued == 1
-//@   ensures [C10] closure-captures-this-iterations-copies: perIterationCopies
+//@   ensures [C10,C12] closure-captures-this-iterations-copies: perIterationCopies
 //@   ensures [C10,C01] end-hook-depends-on-exactly-the-element-jobs: endJobsRecorded
 
 // ---------------------------------------------------------------------------
